@@ -1673,6 +1673,11 @@ func (p *Parser) evaluateSwitch(ctx context) (Statement, error) {
 		var compareExprToken lexer.Token
 
 		switch nextToken.Type() {
+		case lexer.NEWLINE:
+			// Blank and comment-only lines may stand between the opening bracket and the first case.
+			p.eat()
+			nextToken = p.peek()
+			continue
 		case lexer.CASE:
 			p.eat() // Eat case-token.
 			compareExprToken = p.peek()
